@@ -102,6 +102,7 @@ type Wire struct {
 	live           int         // messages created and not yet released
 	sentAfterClose int
 	RecvHungUp     bool // the peer hung up: RecvMessage returns io.EOF once the queue is empty
+	CloseFails     bool // Close closes the transport but reports an error (as a TLS stream does after a reset)
 }
 
 func NewWire() *Wire {
@@ -250,6 +251,9 @@ func (w *Wire) Close() error {
 	if !w.closed {
 		w.closed = true
 		close(w.closedCh)
+	}
+	if w.CloseFails {
+		return ErrInjected
 	}
 	return nil
 }
